@@ -8,6 +8,13 @@ OUT=/verif/seeded/$ID
 # re-checked on the commit it was written for (file base_commit)
 BASE=HEAD; [ -f $OUT/base_commit ] && BASE=$(cat $OUT/base_commit)
 git -C /repo worktree add -q --detach $EV $BASE || exit 2
+# an older base lacks the hooks the worker needs now (H3b evaluation depth, H7 report delay): bring
+# them in (hook commits only add tagged files / no-op call sites)
+for H in 6c7d26c 664dc0c; do
+  if ! git -C /repo merge-base --is-ancestor $H $BASE 2>/dev/null; then
+    ( cd $EV && git cherry-pick -n $H >/dev/null 2>&1 ) || { ( cd $EV && git cherry-pick --abort 2>/dev/null; git reset -q --hard $BASE ); echo "hook $H cannot be brought onto $BASE"; }
+  fi
+done
 ( cd $EV && git apply $OUT/patch.diff ) || { echo "patch does not apply"; git -C /repo worktree remove --force $EV; exit 2; }
 cd /verif
 # JUDGE=<frozen zncheck binary> avoids rebuilding the judge (use it in long loops, so that edits
